@@ -52,8 +52,9 @@ func (m *Mutex) TryLock() bool {
 func (m *Mutex) Count() int {
 	// 获取state字段的值
 	v := atomic.LoadInt32((*int32)(unsafe.Pointer(&m.Mutex)))
+	locked := v & mutexLocked //锁持有者的数量，0或者1 (必须在移位之前取)
 	v = v >> mutexWaiterShift //得到等待者的数值
-	v = v + (v & mutexLocked) //再加上锁持有者的数量，0或者1
+	v = v + locked            //再加上锁持有者的数量
 	return int(v)
 }
 
